@@ -4,7 +4,7 @@
 From Coq Require Import ZArith NArith List Bool Permutation.
 From XV Require Import core.Value model.Hash model.Cache model.Edits
   model.Spec model.Seal proofs.Hash_lemmas proofs.Neutral_lemmas proofs.Cache_lemmas proofs.Spec_lemmas
-  proofs.Walk_reach_lemmas.
+  proofs.Walk_reach_lemmas proofs.Vperm_lemmas.
 Import ListNotations.
 
 (* keyword order: the stored values of any node in another order (distinct
@@ -91,3 +91,12 @@ Theorem C01_keyword_order_full_identifier : forall H cs h n x f' fuel m d,
   full_pure H cs h fuel m = Ok d -> full_pure H cs (upd_nth h n (with_fields x f')) fuel m = Ok d.
 Proof. exact kwarg_order_full. Qed.
 Print Assumptions C01_keyword_order_full_identifier.
+
+(* dict insertion order: the same value with dict items inserted in another order, at any depth
+   (vperm), stored in any parameter of any node, leaves the identifier of EVERY node unchanged *)
+Theorem C01_dict_insertion_order : forall H cs h look n x k v v',
+  nth_error h n = Some x -> assoc k (n_fields x) = Some v -> vperm v v' ->
+  forall fuel m, raw_ident H cs h look fuel m
+               = raw_ident H cs (upd_nth h n (with_fields x (set_field k v' (n_fields x)))) look fuel m.
+Proof. exact dict_order_neutral. Qed.
+Print Assumptions C01_dict_insertion_order.
